@@ -26,8 +26,8 @@
    URL syntax = Lib/UrlTree (split_url, is_brace, star). *)
 From Coq Require Import List ZArith Bool.
 From Coq Require String.
-From Verif Require Import Lib.UrlTree Lib.Regex.
-From Verif Require C03.Trie C03.Model C13.Model.
+From Verif Require Import Lib.UrlTree Lib.Regex C14.Reader.
+From Verif Require C03.Trie C03.Model C03.SpecLocal C13.Model.
 Import ListNotations.
 Open Scope Z_scope.
 
@@ -170,6 +170,80 @@ Definition trimmed (u : str) : bool := str_eqb (trim_url u) u.
 Definition url_ok (p u : str) : bool :=
   trimmed u && params_nonempty (parse_pattern (split_url p)) (split_url u).
 
+(* --- the same two findings, EXACT: [url_ok] also excludes request URLs that
+   are spelled with trailing '.' '/' but ARE found by the expression (no "$"
+   after a wildcard; a trailing "[^/]+" swallows dots).  [url_ok_exact] is the
+   set of spellings on which the expression of the pattern finds the URL the
+   pattern matches (Property.v: C14_found_exactly; [url_ok] implies it):
+     - no leading '.' '/' (unless the pattern is the lone wildcard, whose
+       expression finds everything),
+     - trailing '.' '/' only when the pattern ends in a wildcard, or when its
+       last part is a PATH parameter and the trailing characters are dots,
+     - no empty part at a parameter position. *)
+Fixpoint take_while (p : Z -> bool) (s : str) : str :=
+  match s with
+  | [] => []
+  | c :: s' => if p c then c :: take_while p s' else []
+  end.
+
+(* what strings.Trim(u, "./") removes on the left / on the right *)
+Definition lead (u : str) : str := take_while is_dot_slash u.
+Definition trail (u : str) : str :=
+  rev (take_while is_dot_slash (rev (drop_while is_dot_slash u))).
+
+(* the pattern is the lone wildcard ("*", ".*", "*/" ..: one part, "*") *)
+Definition only_wild (ps : list part) : bool :=
+  match ps with
+  | [(_, s)] => str_eqb s star
+  | _ => false
+  end.
+
+(* the last part of the pattern is a parameter in path position *)
+Fixpoint last_path_param (ps : list part) : bool :=
+  match ps with
+  | [] => false
+  | (k, s) :: rest => if is_nil rest then negb k && is_brace s else last_path_param rest
+  end.
+
+Definition is_dot (c : Z) : bool := c =? c_dot.
+
+Definition lead_ok (ps : list part) (u : str) : bool := only_wild ps || is_nil (lead u).
+Definition tail_ok (ps : list part) (u : str) : bool :=
+  ends_wild ps || is_nil (trail u) || (last_path_param ps && forallb is_dot (trail u)).
+
+Definition url_ok_exact (p u : str) : bool :=
+  lead_ok (split_url p) u && tail_ok (split_url p) u &&
+  params_nonempty (parse_pattern (split_url p)) (split_url u).
+
+(* the root cause when it is false, in the order the monitor's classifier
+   tests them: 1 = leading/trailing spelling (F-C14c), 2 = empty part at a
+   parameter (F-C14e), 0 = none *)
+Definition bypass_class (p u : str) : Z :=
+  if negb (lead_ok (split_url p) u && tail_ok (split_url p) u) then 1
+  else if negb (params_nonempty (parse_pattern (split_url p)) (split_url u)) then 2
+  else 0.
+
+(* ":::" occurs exactly once in the subject (at the end of the method): the
+   proviso of the exactness statement C14_found_exactly.  A request URL that
+   itself contains "METHOD:::" can be found at that inner position. *)
+Fixpoint starts (x s : str) : bool :=
+  match x, s with
+  | [], _ => true
+  | c :: x', d :: s' => (c =? d) && starts x' s'
+  | _ :: _, [] => false
+  end.
+
+Fixpoint occ3 (s : str) : nat :=
+  match s with
+  | [] => O
+  | _ :: s' => ((if starts sep3 s then 1 else 0) + occ3 s')%nat
+  end.
+
+Definition sep_onceb (m u : str) : bool := Nat.eqb (occ3 (subject m u)) 1.
+
+Definition sep_once (m u : str) : Prop :=
+  forall a b, subject m u = a ++ sep3 ++ b -> a = m.
+
 (* ------------------------------------------------------------------ *)
 (* Vocabulary of the literal-ness statements                           *)
 
@@ -231,33 +305,60 @@ Definition strs_same (a b : list str) : bool :=
 
 (* --- suite "expr": one expression, its printed form, verdicts on subjects ---
    case = (method (None = any-method expression), url pattern,
-           the Go string, [(subject, Go regexp.MatchString verdict)]) *)
+           the Go string, [(subject, Go regexp.MatchString verdict)]).
+   Compared: the printed model expression and the byte-level translation with
+   the Go string; the model matcher on the model expression with Go's regexp on
+   every subject; AND the Go string itself read back by the independent reader
+   (Reader.parse) and matched by the same matcher, with Go's regexp again. *)
 Definition case_expr := (option str * str * str * list (str * bool))%type.
 
-Definition run_expr (k : case_expr) : option (str * str * list bool) :=
+Definition run_expr (k : case_expr) : option (str * str * list bool * option (list bool)) :=
   let '(m, u, go, subs) := k in
   let e := match m with Some m => format m u | None => format_any u end in
   let b := match m with Some m => format_bytes m u | None => format_any_bytes u end in
   let p := print_expr e in
   let vs := map (fun sb => re_search e (fst sb)) subs in
-  if str_eqb p go && str_eqb b go && blist_eqb vs (map snd subs) then None
-  else Some (p, b, vs).
+  let rd := match parse go with
+            | Some e' => Some (map (fun sb => re_search e' (fst sb)) subs)
+            | None => None
+            end in
+  if str_eqb p go && str_eqb b go && blist_eqb vs (map snd subs) &&
+     match rd with Some vs' => blist_eqb vs' (map snd subs) | None => false end
+  then None
+  else Some (p, b, vs, rd).
 
 (* --- suite "flows": a flow configuration loaded by the engine ---
    case = (flows (id, url, methods) in load order, loaded without error,
            ManageAll, registered expressions,
            [(method, url, sorted ids of the flows the engine selects,
-             is_managed evaluated with Go regexp over the registered list)]) *)
+             is_managed evaluated with Go regexp over the registered list,
+             per selected id the class the monitor's classifier gives the pair
+             (pattern of that flow, request URL))]).
+   Class (computed by the monitor's own code, compared here with the side
+   conditions of the theorems): 3 = the flow's pattern collides with another
+   configured pattern on the look-up path of this URL (not kc_at: F-C14h),
+   1 = leading / trailing spelling (F-C14c), 2 = empty part at a parameter
+   (F-C14e), 0 = none: the hypotheses of C14_no_bypass_flows_exact hold. *)
 Definition flow_t := (Z * str * list str)%type.
 Definition case_flows :=
-  (list flow_t * bool * bool * list str * list (str * str * list Z * bool))%type.
+  (list flow_t * bool * bool * list str * list (str * str * list Z * bool * list Z))%type.
 
 Definition mk_flow (x : flow_t) : C03.Model.flow :=
   let '(id, u, ms) := x in C03.Model.mkFlow id 0 u ms [] [] [].
 Definition mk_txn (m u : str) : C03.Model.txn := C03.Model.mkTxn false u m [] [] 0.
 
+Definition side_class (fs : list C03.Model.flow) (f : C03.Model.flow) (u : str) : Z :=
+  if negb (C03.SpecLocal.kc_at fs f (C03.Trie.split_url u)) then 3
+  else bypass_class (C03.Model.f_url f) u.
+
+Definition class_of_id (fs : list C03.Model.flow) (u : str) (id : Z) : Z :=
+  match find (fun f => C03.Model.f_id f =? id) fs with
+  | Some f => side_class fs f u
+  | None => -1
+  end.
+
 Definition run_flows (k : case_flows)
-  : option (bool * bool * list str * list (list Z * bool)) :=
+  : option (bool * bool * list str * list (list Z * bool * list Z)) :=
   let '(fl, loaded, all, eps, obs) := k in
   let fs := map mk_flow fl in
   let '(t, errs) := C03.Model.build fs in
@@ -267,12 +368,12 @@ Definition run_flows (k : case_flows)
     let mall := flows_manage_all fs in
     let mes := flows_endpoints fs in
     let meps := map print_expr mes in
-    let mobs := map (fun o => let '(m, u, _, _) := o in
-                       (C03.Model.sort (map C03.Model.f_id (C03.Model.get_flow t (mk_txn m u))),
-                        managed mall mes m u)) obs in
+    let mobs := map (fun o => let '(m, u, _, _, _) := o in
+                       let sel := C03.Model.sort (map C03.Model.f_id (C03.Model.get_flow t (mk_txn m u))) in
+                       (sel, managed mall mes m u, map (class_of_id fs u) sel)) obs in
     if loaded && eqb mall all && strs_same meps eps &&
-       forallb (fun mo => let '(ms, mg) := fst mo in let '(_, _, s, g) := snd mo in
-                          zlist_eqb ms s && eqb mg g) (combine mobs obs)
+       forallb (fun mo => let '(ms, mg, mc) := fst mo in let '(_, _, s, g, c) := snd mo in
+                          zlist_eqb ms s && eqb mg g && zlist_eqb mc c) (combine mobs obs)
     then None else Some (true, mall, meps, mobs).
 
 (* --- suite "policies": a policies.yaml endpoint list ---
